@@ -554,6 +554,9 @@ impl ASN1Type {
             })) => {
                 let mut impl_template = ty.clone();
                 let mut impl_tlds = tlds.clone();
+                // A template that instantiates itself, directly or by way of other templates,
+                // cannot be expanded in place: it is not available while it is being expanded.
+                impl_tlds.remove(identifier);
                 let mut table_constraint_replacements = BTreeMap::new();
                 for (
                     index,
